@@ -96,6 +96,17 @@ func (s *ViewStates) NextView() hotstuff.View {
 	return s.view
 }
 
+// EnterViewAfter leaves the current view for the view after certified, the view of a verified
+// quorum or timeout certificate that is not older than the current view, and returns the new view.
+func (s *ViewStates) EnterViewAfter(certified hotstuff.View) hotstuff.View {
+	s.mut.Lock()
+	defer s.mut.Unlock()
+	if certified >= s.view {
+		s.view = certified + 1
+	}
+	return s.view
+}
+
 // View returns the current view.
 func (s *ViewStates) View() hotstuff.View {
 	s.mut.RLock()
